@@ -89,8 +89,8 @@ def run(tier, replay):
         mc = ("---- MODULE GWire ----\nEXTENDS WireCases\nMCMs == {2, 3, 6}\nMCPs == {4, 20}\n"
               "Records == ndJsonDeserialize(\"c01_records.ndjson\")\n"
               "ASSUME PrintT(<<\"BADRECORDS\", {Records[i].id : i \\in {j \\in 1..Len(Records) : Records[j].out # Exp(Records[j].f, 0, Records[j].m)}}>>)\n====\n")
-        cfg = ("SPECIFICATION Spec\nCONSTANTS\n MaxLen = %d\n CaseLen = %d\n Ms <- MCMs\n Ps <- MCPs\n KF_FrameLongerThanBuffer = %s\nINVARIANT Faithful\n"
-               % (maxlen, caselen, "TRUE" if kf_long else "FALSE"))
+        cfg = ("SPECIFICATION Spec\nCONSTANTS\n MaxLen = %d\n CaseLen = %d\n Ms <- MCMs\n Ps <- MCPs\n KF_FrameLongerThanBuffer = %s\n KF_LeadingDotPlain = %s\nINVARIANT Faithful\n"
+               % (maxlen, caselen, "TRUE" if kf_long else "FALSE", "TRUE" if kf_dot else "FALSE"))
         r = vlib.tlc(wd, "GWire", "G.cfg", files={"GWire.tla": mc, "G.cfg": cfg}, timeout=3300, heap="24g")
         if not r.ok:
             raise vlib.Inconclusive("TLC Wire: %s %s" % (r.violated, (r.error or "")[-1500:]))
@@ -124,6 +124,18 @@ def run(tier, replay):
                 V.known("KF_FrameLongerThanBuffer", desc)
             else:
                 V.violation("stdout differs from the file (with the permitted MaxLineLength newlines): " + (b["problem"] or ""), desc)
+        # the one control message the client knows, as the beginning of a line of the file (plain mode)
+        sy = os.path.join(wd, "syn.json")
+        rc, out = vlib.go_test(wd, "./internal/clients/connectors", OV, "TestC01SynText", env={"VERIF_OUT": sy}, timeout=300)
+        if rc != 0 or not os.path.exists(sy):
+            raise vlib.Inconclusive("syn text harness failed\n" + out[-2500:])
+        for b in json.load(open(sy)):
+            if b["equal"]:
+                continue
+            if "KF_SynTextInContent" in V.kf and b["prefix_until_syn_line"]:
+                V.known("KF_SynTextInContent", b)
+            else:
+                V.violation("plain mode: a file with a line beginning like a control message is not reproduced", b)
         so = os.path.join(wd, "slow.json")
         rc, out = vlib.go_test(wd, "./internal/clients/connectors", OV, "TestC01SlowConsumer", env={"VERIF_OUT": so}, timeout=300)
         if rc != 0 or not os.path.exists(so):
